@@ -224,6 +224,9 @@ func (w *algWorld) Exec(p *Plan, st *RunStats) *Violation {
 		default:
 			safely(o, op, func() { subj[op.X&1].Step(op, o) })
 		}
+		if traceOn {
+			trace("op %d %s -> %016x %016x", op.ID, op.N, hashStr(a.Obs()), hashStr(b.Obs()))
+		}
 		if o.Failed() {
 			break
 		}
